@@ -1,4 +1,7 @@
 import Chartparse.Model.Rate
+import Chartparse.Gen.Imports
+import Chartparse.Model.Objects
+import Chartparse.Gen.Classes
 /-! Line-protocol driver: one request per line on stdin, one canonical reply per line on stdout.
     Imports only `Model/` and `Gen/` (no Mathlib), so it links as a native executable. -/
 open Chartparse Chartparse.F64 Chartparse.Tempo Chartparse.Inst Chartparse.Meta Chartparse.Rate
@@ -133,6 +136,39 @@ def handle (toks : List String) : String :=
     | .error err => "CHART " ++ showErr err
     | .ok c => match notesPerSecond c (i.toNat!, d.toNat!) (parseBound s) (parseBound e) with
       | .ok v => showRat v | .error err => showErr err
+  | ["imports", order] =>
+    -- per step: ok / fail; then whether the final state is good (no partial module, canonical bindings)
+    let seq := if order == "-" then [] else (order.splitOn ",").map String.toNat!
+    let rec go (s : Option Chartparse.Imp.State) (l : List Nat) (acc : List String) : List String × Option Chartparse.Imp.State :=
+      match l, s with
+      | [], _ => (acc.reverse, s)
+      | _ :: ms, none => go none ms ("skip" :: acc)
+      | m :: ms, some st => match Chartparse.Imp.importTop Gen.importGraph st m with
+        | some st' => go (some st') ms ("ok" :: acc)
+        | none => go none ms ("fail" :: acc)
+    let r := go (some (Chartparse.Imp.initState Gen.importGraph)) seq []
+    " ".intercalate r.1 ++ " | " ++ (match r.2 with
+      | some st => s!"good={Chartparse.Imp.good st}"
+      | none => "good=false")
+  | ["obj", mp, ops] =>
+    -- mp: i:d.d;i:d   ops: g<i> | n<i>.<d> | c | p   (comma separated)
+    let tm : Chartparse.Obj.TrackMap := if mp == "-" then [] else (mp.splitOn ";").map fun e =>
+      match e.splitOn ":" with
+      | [i, ds] => (i.toNat!, if ds == "" then [] else (ds.splitOn ".").map String.toNat!)
+      | _ => (0, [])
+    let opl : List Chartparse.Obj.Op := if ops == "-" then [] else (ops.splitOn ",").map fun o =>
+      if o.startsWith "g" then .getItem (o.drop 1).toString.toNat!
+      else if o.startsWith "n" then match (o.drop 1).toString.splitOn "." with
+        | [i, d] => .nps i.toNat! d.toNat!
+        | _ => .pure
+      else if o.startsWith "c" then .derived 0 0
+      else .pure
+    let showTm (t : Chartparse.Obj.TrackMap) : String :=
+      ";".intercalate (t.map fun kv => s!"{kv.1}:" ++ ".".intercalate (kv.2.map toString))
+    let showOut : Chartparse.Obj.Out → String
+      | .keyError => "KeyError" | .valueError => "ValueError" | .found => "found"
+      | .dict ds => "dict" ++ ".".intercalate (ds.map toString) | .unit => "unit"
+    " ".intercalate ((Chartparse.Obj.outs Gen.trackMapAutoInserts ⟨tm, []⟩ opl).map fun r => showOut r.1 ++ "|" ++ showTm r.2)
   | _ => "bad-op"
 
 partial def loop (h : IO.FS.Stream) (out : IO.FS.Stream) : IO Unit := do
